@@ -252,10 +252,13 @@ Ckpt == /\ Is("ckpt")
         /\ l' = l + 1
 
 HeapDelta == IF "heap_delta" \in DOMAIN E THEN E.heap_delta ELSE 0
+\* bytes still alive that were allocated inside calls of the crate (scheduled runs; exact, the harness's own
+\* allocations are not counted)
+CrateHeap == IF "crate_heap" \in DOMAIN E THEN E.crate_heap ELSE 0
 
 End == /\ Is("end")
        /\ Flag((IF E.outcome = "Done" /\ led.live # {} THEN {"C05"} ELSE {}) \cup
-               (IF E.outcome = "Done" /\ (E.live # 0 \/ HeapDelta > 100) THEN {"C17"} ELSE {}))
+               (IF E.outcome = "Done" /\ (E.live # 0 \/ HeapDelta > 100 \/ CrateHeap # 0) THEN {"C17"} ELSE {}))
        /\ UNCHANGED <<q, pend, led>>
        /\ l' = l + 1
 
